@@ -48,8 +48,8 @@ func verifC13(native bool) {
 	}
 	type ent struct {
 		key, stored []byte
-		age          int64
-		del          bool
+		age         int64
+		del         bool
 	}
 	var ents []ent
 	keys := [][]byte{[]byte("a"), []byte("b")}
@@ -147,9 +147,9 @@ func VerifC13Sliced() {
 	old := uint64(now - r - r) // well expired
 	young := uint64(now)       // written now
 	type ent struct {
-		dbi        string
-		key, st    []byte
-		expired    bool
+		dbi     string
+		key, st []byte
+		expired bool
 	}
 	var ents []ent
 	err := env.Update(func(txn *lmdb.Txn) error {
